@@ -16,7 +16,8 @@ sets the future directly.
 Granularity = the locks in the code: `handle_message` under `_stop_lock` (test `_running` + push) is one
 action, the worker's pop under `_cv` is one action, one callback of an event loop is one action.
 
-Faithful to the pinned tree, including the paths on which a request is lost; they are switched by `Cfg`:
+The paths on which a request is lost are switched by `Cfg` (`Cfg.pinned` = the tree before the repairs
+5177c53 / dc3d515, `Cfg.sound` = the source now; the harness probes the bits on every run):
 * `lockCrash`     — a lock request whose cell of `_handle_lock_rpc_request` raises kills the worker thread
                     (pinned tree: FORCE_RELEASE on an unlocked object → `UnboundLocalError`);
 * `pickleEscapes` — a serialisation error in `_PeerTcpConnection.send_message` is not in
